@@ -22,7 +22,15 @@ EXTENDS Integers, Sequences, FiniteSets, TLC, Json
 
 CONSTANTS NPs,        \* page counts
           MaxFields,  \* number of top-level entries
-          Later       \* shapes allowed for entries after the first (all shapes for the first)
+          Later,      \* shapes allowed for entries after the first (all shapes for the first)
+          IndDims     \* which of "perms", "acro", "fields", "kids" vary between direct and indirect objects
+
+(* Every dictionary / array on the removal path may be stored inline or as an indirect object:       *)
+(* ind is the set of those stored indirectly: catalog /Perms, catalog /AcroForm, the /Fields array,   *)
+(* the /Kids arrays.  sf is the /SigFlags value of the AcroForm of a document WITHOUT signature       *)
+(* fields (-1: no /SigFlags entry; a stale 1 or 3 does not make the document signed); documents with  *)
+(* signature fields carry /SigFlags 3.                                                                *)
+SFs == {0-1, 0, 1, 3}
 
 Shapes == {"sigM", "sigK", "sigK2", "grp", "grp3", "grpFT", "tx"}
 Ent(sh, p, q, v, hp, t) == [sh |-> sh, p |-> p, q |-> q, v |-> v, hasP |-> hp, tx |-> t]
@@ -33,14 +41,23 @@ Entries(np) ==
     \cup {Ent(sh, p, 0, TRUE, TRUE, FALSE) : sh \in {"grp3", "grpFT"}, p \in 1..np}
     \cup {Ent("tx", p, 0, FALSE, TRUE, FALSE) : p \in 1..np}
 
-VARIABLES np, fields, perms, link
-vars == <<np, fields, perms, link>>
+VARIABLES np, fields, perms, link, ind, sf
+vars == <<np, fields, perms, link, ind, sf>>
 
 IsSig(e)  == e.sh # "tx"
 Signed(e) == IsSig(e) /\ e.v
 HasSigs   == (\E i \in 1..Len(fields) : IsSig(fields[i])) \/ perms # {}
 (* /DocMDP points at the signature dictionary of a signed field *)
-WellFormed == "DocMDP" \in perms => \E i \in 1..Len(fields) : Signed(fields[i])
+HasSigField == \E i \in 1..Len(fields) : IsSig(fields[i])
+HasAcroForm == fields # <<>> \/ sf >= 0
+HasKids     == \E i \in 1..Len(fields) : fields[i].sh \notin {"sigM", "tx"}
+WellFormed ==
+    /\ "DocMDP" \in perms => \E i \in 1..Len(fields) : Signed(fields[i])
+    (* canonical form: a dimension that does not exist in the document is not varied *)
+    /\ "perms" \in ind => perms # {}
+    /\ ind \cap {"acro", "fields"} # {} => HasAcroForm
+    /\ "kids" \in ind => HasKids
+    /\ HasSigField => sf = 3
 
 N(i) == ToString(i)
 (* fully qualified names of the terminal fields that are NOT signatures: they must survive *)
@@ -60,19 +77,25 @@ Init == /\ np \in NPs
         /\ fields = <<>>
         /\ perms \in SUBSET {"DocMDP", "UR3"}
         /\ link \in BOOLEAN
+        /\ ind \in SUBSET IndDims
+        /\ "perms" \in ind => perms # {}
+        /\ sf \in SFs
 Add == /\ Len(fields) < MaxFields
        /\ \E e \in Entries(np) :
             /\ Len(fields) >= 1 => e.sh \in Later
+            /\ IsSig(e) => sf = 3          \* documents with signature fields carry /SigFlags 3
             /\ fields' = Append(fields, e)
-       /\ UNCHANGED <<np, perms, link>>
+       /\ UNCHANGED <<np, perms, link, ind, sf>>
 Next == Add
 Spec == Init /\ [][Next]_vars
 
 (* design checks of the model *)
 KeepDisjoint == KeepFields \cap SigFields = {}
 NoSigNoPerms == ~HasSigs => perms = {} /\ \A i \in 1..Len(fields) : fields[i].sh = "tx"
+(* a stale /SigFlags never turns an unsigned document into a signed one *)
+FlagsDoNotSign == (~HasSigField /\ perms = {}) => ~HasSigs
 
-Case == [np |-> np, fields |-> fields, perms |-> perms, link |-> link,
+Case == [np |-> np, fields |-> fields, perms |-> perms, link |-> link, ind |-> ind, sf |-> sf,
          outcome |-> IF HasSigs THEN "ok" ELSE "nosig",
          sigfields |-> SigFields, keepfields |-> KeepFields, keepannots |-> KeepAnnots]
 Emit == WellFormed => PrintT(<<"CASE", ToJson(Case)>>)
